@@ -436,6 +436,78 @@ def glyphDispV (widths : W2Map) (dw2 : Option (Rat × Rat)) (cid : Nat) : Option
   | some (_, .num vx, .num vy) => (some vx, vy)
   | _ => (none, (dw2.getD Gen.CIDFont.DW2_DEFAULT).1)
 
+/-! ## `PDFCIDFont.__init__` glue: `cidcoding`, DW / DW2 validation, choice of the arrays by writing mode -/
+
+/-- `str.isspace()` on the Latin-1 range (what `str.strip()` removes after `bytes.decode("latin1")`). -/
+def isPySpace (c : UInt8) : Bool :=
+  (9 ≤ c && c ≤ 13) || (28 ≤ c && c ≤ 32) || c == 0x85 || c == 0xA0
+
+/-- `s.decode("latin1").strip()` (Latin-1 is byte-for-byte, so the model stays on bytes). -/
+def pyStrip (s : Bytes) : Bytes := ((s.dropWhile isPySpace).reverse.dropWhile isPySpace).reverse
+
+def unknownBytes : Bytes := [117, 110, 107, 110, 111, 119, 110]   -- b"unknown"
+
+/-- `self.cidcoding = f"{registry.strip()}-{ordering.strip()}"` (separator regenerated from pdffont.py); `none` = the entry is absent or not a
+string (`b"unknown"` is used). -/
+def cidCoding (registry ordering : Option Bytes) : Bytes :=
+  pyStrip (registry.getD unknownBytes) ++ Gen.CIDFont.CIDCODING_SEP ++ pyStrip (ordering.getD unknownBytes)
+
+/-- `bytes.decode("latin1")`. -/
+def latin1 (b : Bytes) : String := String.ofList (b.map (fun c => Char.ofNat c.toNat))
+
+/-- Which CID → Unicode map `PDFCIDFont.__init__` picks, from the raw `CIDSystemInfo` entries (`none` = absent or
+not a string): `"Identity" in cid_ordering` looks at the UNSTRIPPED ordering, the collection key is `cidcoding`. -/
+def fontUnicodeMap (tu : ToUni) (registry ordering : Option Bytes) (encoding : String)
+    (hasTTF cmapVertical shipped : Bool) : MapSel :=
+  selectUnicodeMap tu (latin1 (ordering.getD unknownBytes)) (latin1 (cidCoding registry ordering)) encoding hasTTF
+    cmapVertical shipped
+
+/-- `default_width` of a horizontal font: `resolve1(spec.get("DW", 1000))`, replaced by the default when it
+is not a number (`none` = absent). -/
+def dwValue : Option WVal → Rat
+  | some (.num v) => v
+  | _ => Gen.CIDFont.DW_DEFAULT
+
+/-- `(vy, w)` of a vertical font: `DW2` must be a list of exactly two numbers, else the default
+(`none` = absent; a `DW2` that is not a list reads as the empty list). -/
+def dw2Value : Option (List WVal) → Rat × Rat
+  | some [.num vy, .num w] => (vy, w)
+  | _ => Gen.CIDFont.DW2_DEFAULT
+
+/-- `PDFCIDFont(spec).char_width(cid) / hscale`: the writing mode of the encoding CMap decides which pair of
+entries (`W`/`DW` or `W2`/`DW2`) is read at all; arrays may be ill-formed, defaults ill-typed. -/
+def cidCharWidth (vertical : Bool) (w : List WElem) (dw : Option WVal) (w2 : List WElem)
+    (dw2 : Option (List WVal)) (cid : Nat) : Except Err Rat :=
+  if vertical then
+    match getWidths2 w2 with
+    | .ok m => .ok (glyphWidthV m (some (dw2Value dw2)) cid)
+    | .error e => .error e
+  else .ok (glyphWidth (getWidths w) (some (dwValue dw)) cid)
+
+/-- Result of `char_disp`: the integer 0 of a horizontal font, or a position vector. -/
+inductive Disp where
+  | zero
+  | vec (vx : Option Rat) (vy : Rat)
+deriving DecidableEq, Repr
+
+/-- `PDFCIDFont(spec).char_disp(cid)`. -/
+def cidCharDisp (vertical : Bool) (w2 : List WElem) (dw2 : Option (List WVal)) (cid : Nat) : Except Err Disp :=
+  if vertical then
+    match getWidths2 w2 with
+    | .ok m => let d := glyphDispV m (some (dw2Value dw2)) cid; .ok (.vec d.1 d.2)
+    | .error e => .error e
+  else .ok .zero
+
+/-! ## `PDFCIDFont.to_unichr` with a ToUnicode stream, text of a shown string -/
+
+/-- `self.unicode_map.get_unichr(cid)` on the parsed ToUnicode map: the map is consulted with the **CID**
+(`none` = `PDFUnicodeNotDefined`, rendered as `(cid:N)`). -/
+def toUnichr (m : UMap) (cid : Nat) : Option (List Nat) := m.lookup (cid : Int)
+
+/-- Text of the glyphs of a shown string: `font.decode(s)` (the encoding CMap), then `to_unichr` per CID. -/
+def shownText (decode : Bytes → List Nat) (m : UMap) (s : Bytes) : List (Option (List Nat)) :=
+  (decode s).map (toUnichr m)
+
 /-! ## Pen movement of `render_string_horizontal / _vertical` (multibyte font, `Tc = 0`, `Tz = 100`) -/
 
 inductive SeqItem where
